@@ -67,7 +67,10 @@ def run_batches(cases, timeout=240, max_threads=16):
                 sem_lock.wait()
             avail[0] -= w
         try:
-            results[i] = vlib.run_case(cmd_of(c), timeout=timeout, env=c.get("env"), tag="m%d/t%d/ck%d/g%d/p%d/fp%d/v%d" % (c["mseed"], c["threads"], c["ckpt"], c["gvt"], c["pseed"], c["fp"], c["variant"]) +
+            env = dict(c.get("env") or {})
+            if c["pseed"] % 2:
+                env["VERIF_MALLOC_FILL"] = "255"   # every other run: fresh heap memory reads as all-ones instead of ASan's 0xbe
+            results[i] = vlib.run_case(cmd_of(c), timeout=timeout, env=env, tag="m%d/t%d/ck%d/g%d/p%d/fp%d/v%d" % (c["mseed"], c["threads"], c["ckpt"], c["gvt"], c["pseed"], c["fp"], c["variant"]) +
                                        "".join("/%s=%s" % (k[3:] if k.startswith("VM_") else k, v) for k, v in sorted((c.get("env") or {}).items())))
         finally:
             with sem_lock:
